@@ -8,10 +8,6 @@ From Verif Require Import GrammarProofsParen GrammarProofsBrace GrammarAllProofs
 From Coq Require Import Sorted.
 Open Scope nat_scope.
 
-Lemma plains_brace_free ps : forallb plain ps = true -> brace_free ps.
-Proof.
-  intros H. apply Forall_forall. intros t Ht. rewrite forallb_forall in H. apply plain_nb. apply H. exact Ht.
-Qed.
 
 Lemma stmt_tail post semi : inner post -> is_symbol semi semicolon = true -> simple_stmt (post ++ [semi]).
 Proof. intros H1 H2. exists post, semi. auto. Qed.
@@ -42,7 +38,7 @@ Proof.
   - replace (pre ++ hd ++ o :: body ++ c :: r) with (pre ++ hd ++ (o :: body ++ [c]) ++ r)
       by (norm_app; reflexivity).
     apply balanced_app; [apply brace_free_balanced, prefix_brace_free, (prefix_words_toks l), Hpre|].
-    apply balanced_app; [apply brace_free_balanced; eapply fhead_brace_free; exact Hhd|].
+    apply balanced_app; [eapply fhead_balanced; exact Hhd|].
     apply balanced_app; [|exact IHr]. apply balanced_block; assumption.
 Qed.
 
@@ -77,10 +73,10 @@ Proof.
         replace (off + length pre0 + length hd) with (length (pre ++ pre0 ++ hd)) by (norm_len; lia).
         apply matched_ctx; try assumption. eapply items_of_balanced; exact Hb.
       * norm_len. lia.
-      * intros k Hk.
-        replace (pre ++ (pre0 ++ hd ++ o :: body ++ c :: r) ++ post)
-          with ((pre ++ pre0) ++ hd ++ (o :: body ++ c :: r ++ post)) by (norm_app; reflexivity).
-        apply brace_free_sym_at; [eapply fhead_brace_free; exact Hhd | norm_len; lia].
+      * intros k Hk. destruct (fhead_tail _ _ _ _ Hhd) as (A & T & EA & LA & HT). revert Hk. rewrite EA. intros Hk.
+        replace (pre ++ (pre0 ++ (A ++ T) ++ o :: body ++ c :: r) ++ post)
+          with ((pre ++ pre0 ++ A) ++ T ++ (o :: body ++ c :: r ++ post)) by (norm_app; reflexivity).
+        apply brace_free_sym_at; [exact HT | revert Hk; norm_len; lia].
     + replace (pre ++ (pre0 ++ hd ++ o :: body ++ c :: r) ++ post)
         with ((pre ++ pre0 ++ hd ++ [o]) ++ body ++ (c :: r ++ post)) by (norm_app; reflexivity).
       apply IHb; norm_len; lia.
